@@ -30,7 +30,7 @@
            for activated in fuzzy_output.grouped_terms().values():
                w = activated.degree
                z = activated.term.__getattribute__(membership)(w)
-               weighted_sum = weighted_sum + w * z
+               weighted_sum = weighted_sum + np.where(w == 0.0, 0.0, w * z)   # guarded since the repair of finding F4
                weights = weights + w
            y = (weighted_sum / weights).squeeze()                 # WeightedSum: y = ((weighted_sum / weights) * weights).squeeze()
            return y
@@ -122,6 +122,12 @@ Section Weighted.
   Definition term_value (this_type : wtype) (t : term T) (w : T) : result T :=
     match this_type with WTsukamoto => ttsukamoto t w | _ => tmembership t w end.
 
+  (* np.where(w == 0.0, 0.0, w * z): an activation of degree 0 (or -0.0) contributes nothing even when z is
+     infinite or NaN (0 * inf = nan: finding F4, repaired in /repo by `fix: weighted defuzzifiers returned nan when an
+     activation had degree zero and an infinite value`).  A NaN degree is not equal to 0, so the product is used
+     (the setter never stores NaN anyway). *)
+  Definition wcontrib (w z : T) : T := where_ (eqb w zero) zero (mul w z).
+
   (* the loop over the groups; state = (weighted_sum, weights) *)
   Fixpoint wloop (this_type : wtype) (groups : list (activated T)) (st : T * T) : result (T * T) :=
     match groups with
@@ -129,7 +135,7 @@ Section Weighted.
     | g :: rest =>
       let w := a_degree g in
       do z <- term_value this_type (a_term g) w;
-      wloop this_type rest (add (fst st) (mul w z), add (snd st) w)
+      wloop this_type rest (add (fst st) (wcontrib w z), add (snd st) w)
     end.
 
   (* weighted_sum = 0.0 if fuzzy_output.terms else nan;  weights = 0.0 *)
